@@ -358,3 +358,231 @@ Proof.
   induction 1 as [|r rows [Hv Hs] _ IH]; simpl; [reflexivity|].
   now rewrite row_model_ok, IH.
 Qed.
+
+(** * the posterior's box is the USER's box, parameter by parameter (GPyRegression.__init__ -> _within_bounds) *)
+From Coq Require Import Permutation.
+From Coq Require String.
+Local Close Scope Q_scope.
+
+Lemma lookup_In d n iv : lookup d n = Some iv -> In (n, iv) d.
+Proof.
+  induction d as [|[k v] d IH]; simpl; [discriminate|].
+  destruct (String.eqb k n) eqn:E.
+  - apply String.eqb_eq in E. intros H. inversion H. subst. now left.
+  - intros H. right. now apply IH.
+Qed.
+
+Lemma In_lookup d n iv : NoDup (map fst d) -> In (n, iv) d -> lookup d n = Some iv.
+Proof.
+  induction d as [|[k v] d IH]; simpl; [tauto|]. intros Hnd [H|H].
+  - inversion H. subst. now rewrite String.eqb_refl.
+  - inversion Hnd as [|? ? Hk Hnd']. subst. destruct (String.eqb k n) eqn:E.
+    + apply String.eqb_eq in E. subst. exfalso. apply Hk. change n with (fst (n, iv)). now apply in_map.
+    + now apply IH.
+Qed.
+
+Lemma lookup_None d n : lookup d n = None -> ~ In n (map fst d).
+Proof.
+  induction d as [|[k v] d IH]; simpl; [tauto|].
+  destruct (String.eqb k n) eqn:E; [discriminate|]. intros H [Hk|Hk].
+  - subst. now rewrite String.eqb_refl in E.
+  - now apply IH.
+Qed.
+
+Lemma lookup_perm d d' n : NoDup (map fst d) -> Permutation d d' -> lookup d n = lookup d' n.
+Proof.
+  intros Hnd Hp.
+  assert (Hnd' : NoDup (map fst d')) by (eapply Permutation_NoDup; [apply Permutation_map; exact Hp | exact Hnd]).
+  destruct (lookup d n) as [iv|] eqn:E.
+  - symmetry. apply In_lookup; auto. eapply Permutation_in; [exact Hp|]. now apply lookup_In.
+  - destruct (lookup d' n) as [iv'|] eqn:E'; auto. exfalso.
+    apply lookup_None in E. apply E. apply lookup_In in E'.
+    change n with (fst (n, iv')). apply in_map. eapply Permutation_in; [apply Permutation_sym; exact Hp | exact E'].
+Qed.
+
+Lemma lookup_all_perm d d' names :
+  NoDup (map fst d) -> Permutation d d' -> lookup_all d names = lookup_all d' names.
+Proof.
+  intros Hnd Hp. induction names as [|n r IH]; simpl; auto.
+  now rewrite (lookup_perm d d' n Hnd Hp), IH.
+Qed.
+
+(** the box does not depend on the order in which the user wrote the keys of the dict *)
+Theorem box_of_perm names d d' :
+  NoDup (map fst d) -> Permutation d d' -> box_of names d = box_of names d'.
+Proof.
+  intros Hnd Hp. unfold box_of. rewrite <- (Permutation_length Hp).
+  destruct (negb (Nat.eqb (length d) (length names))); auto.
+  destruct (Nat.eqb (length d) 1) eqn:E.
+  - apply Nat.eqb_eq in E. destruct d as [|a [|b d]]; simpl in E; try discriminate.
+    apply Permutation_length_1_inv in Hp. now subst.
+  - now apply lookup_all_perm.
+Qed.
+
+Lemma lookup_all_nth d : forall names bs,
+  lookup_all d names = Some bs ->
+  length bs = length names /\
+  forall i n, nth_error names i = Some n -> exists iv, lookup d n = Some iv /\ nth_error bs i = Some iv.
+Proof.
+  induction names as [|m r IH]; simpl; intros bs H.
+  - inversion H. split; auto. intros [|i] n Hn; discriminate.
+  - destruct (lookup d m) as [iv|] eqn:E; [|discriminate].
+    destruct (lookup_all d r) as [b|] eqn:Er; [|discriminate]. inversion H. subst.
+    destruct (IH b eq_refl) as [Hl Hi]. split; [simpl; now rewrite Hl|].
+    intros [|i] n Hn; simpl in Hn.
+    + inversion Hn. subst. exists iv. auto.
+    + simpl. now apply Hi.
+Qed.
+
+(** with two or more parameters the constructor's list IS the by-name list *)
+Lemma box_of_lookup_all names d bs :
+  box_of names d = Some bs -> length names <> 1 -> lookup_all d names = Some bs.
+Proof.
+  unfold box_of. destruct (Nat.eqb (length d) (length names)) eqn:El; simpl; [|discriminate].
+  apply Nat.eqb_eq in El. destruct (Nat.eqb (length d) 1) eqn:E1; [|auto].
+  apply Nat.eqb_eq in E1. intros _ Hn. exfalso. apply Hn. congruence.
+Qed.
+
+(** coordinate i of the box is the interval the dict binds to parameter_names[i] *)
+Theorem box_of_by_name names d bs :
+  box_of names d = Some bs ->
+  length bs = length names /\
+  (length names <> 1 ->
+   forall i n, nth_error names i = Some n -> exists iv, lookup d n = Some iv /\ nth_error bs i = Some iv) /\
+  (length names = 1 -> bs = map snd d).
+Proof.
+  unfold box_of. destruct (Nat.eqb (length d) (length names)) eqn:El; simpl; [|discriminate].
+  apply Nat.eqb_eq in El. destruct (Nat.eqb (length d) 1) eqn:E1.
+  - apply Nat.eqb_eq in E1. intros H. inversion H. subst. rewrite map_length. repeat split; auto. lia.
+  - apply Nat.eqb_neq in E1. intros H. destruct (lookup_all_nth d names bs H) as [Hl Hi].
+    repeat split; auto. lia.
+Qed.
+
+(** membership in [combine x b] by position *)
+Lemma In_combine_nth {A B} (x : list A) (b : list B) p :
+  In p (combine x b) <-> exists i, nth_error x i = Some (fst p) /\ nth_error b i = Some (snd p).
+Proof.
+  revert b. induction x as [|a x IH]; intros [|c b]; simpl.
+  - split; [tauto|]. intros [[|i] [H _]]; discriminate.
+  - split; [tauto|]. intros [[|i] [H _]]; discriminate.
+  - split; [tauto|]. intros [[|i] [_ H]]; discriminate.
+  - split.
+    + intros [H|H].
+      * subst. exists 0. simpl. auto.
+      * apply IH in H. destruct H as [i Hi]. exists (S i). exact Hi.
+    + intros [[|i] [H1 H2]]; simpl in *.
+      * left. destruct p. simpl in *. congruence.
+      * right. apply IH. exists i. auto.
+Qed.
+
+Local Open Scope Q_scope.
+
+(** "x is within the by-name box": every parameter's coordinate lies in the interval the dict gives for that NAME *)
+Definition named_inside (names : list string) (d : bdict) (x : list Q) : Prop :=
+  forall i n xi lo hi, nth_error names i = Some n -> nth_error x i = Some xi -> lookup d n = Some (lo, hi) ->
+                       lo <= xi /\ xi <= hi.
+Definition named_outside (names : list string) (d : bdict) (x : list Q) : Prop :=
+  exists i n xi lo hi, nth_error names i = Some n /\ nth_error x i = Some xi /\ lookup d n = Some (lo, hi) /\
+                       (xi < lo \/ hi < xi).
+
+Lemma all_inside_named names d b x :
+  lookup_all d names = Some b -> length x = length names ->
+  (all_inside x b <-> named_inside names d x).
+Proof.
+  intros Hb Hx. destruct (lookup_all_nth d names b Hb) as [Hl Hi]. unfold all_inside, named_inside. split.
+  - intros H i n xi lo hi Hn Hxi Hlk. destruct (Hi i n Hn) as [iv [Hlk' Hnb]].
+    assert (Eiv : iv = (lo, hi)) by (unfold bound in *; congruence). subst iv.
+    apply (H xi lo hi). apply In_combine_nth. exists i. simpl. auto.
+  - intros H xi lo hi Hin. apply In_combine_nth in Hin. destruct Hin as [i [Hxi Hbi]]. simpl in *.
+    assert (Hlt : (i < length names)%nat) by (rewrite <- Hx; apply nth_error_Some; congruence).
+    destruct (nth_error names i) as [n|] eqn:En; [|apply nth_error_None in En; lia].
+    destruct (Hi i n En) as [iv [Hlk Hnb]]. assert (Eiv : iv = (lo, hi)) by (unfold bound in *; congruence). subst iv.
+    exact (H i n xi lo hi En Hxi Hlk).
+Qed.
+
+Lemma some_outside_named names d b x :
+  lookup_all d names = Some b -> length x = length names ->
+  (some_outside x b <-> named_outside names d x).
+Proof.
+  intros Hb Hx. destruct (lookup_all_nth d names b Hb) as [Hl Hi]. unfold some_outside, named_outside. split.
+  - intros (xi & lo & hi & Hin & H). apply In_combine_nth in Hin. destruct Hin as [i [Hxi Hbi]]. simpl in *.
+    assert (Hlt : (i < length names)%nat) by (rewrite <- Hx; apply nth_error_Some; congruence).
+    destruct (nth_error names i) as [n|] eqn:En; [|apply nth_error_None in En; lia].
+    destruct (Hi i n En) as [iv [Hlk Hnb]]. assert (Eiv : iv = (lo, hi)) by (unfold bound in *; congruence). subst iv.
+    exists i, n, xi, lo, hi. auto.
+  - intros (i & n & xi & lo & hi & Hn & Hxi & Hlk & H). destruct (Hi i n Hn) as [iv [Hlk' Hnb]].
+    assert (Eiv : iv = (lo, hi)) by (unfold bound in *; congruence). subst iv.
+    exists xi, lo, hi. split; [|exact H]. apply In_combine_nth. exists i. simpl. auto.
+Qed.
+
+(** the model's bounds test on the constructor's box = the by-name reading of the user's dict (>= 2 parameters) *)
+Theorem within_bounds_named names d b x :
+  box_of names d = Some b -> length names <> 1%nat -> length x = length names ->
+  (within_bounds x b = true <-> named_inside names d x).
+Proof.
+  intros Hb Hn Hx. rewrite within_bounds_spec. apply (all_inside_named names d b x); auto.
+  now apply box_of_lookup_all.
+Qed.
+
+(** ... hence the model's log density and gradient do not depend on the key order of the dict *)
+Theorem posterior_order_independent names d d' t r :
+  NoDup (map fst d) -> Permutation d d' ->
+  forall b b', box_of names d = Some b -> box_of names d' = Some b' ->
+    logpdf_row b r = logpdf_row b' r /\ gradpdf_row b t r = gradpdf_row b' t r.
+Proof.
+  intros Hnd Hp b b' Hb Hb'. rewrite (box_of_perm names d d' Hnd Hp) in Hb. rewrite Hb in Hb'.
+  inversion Hb'. subst. auto.
+Qed.
+
+(** [row_prop] read by parameter NAME *)
+Definition named_row_prop (names : list string) (d : bdict) (t : Q) (r : row) (lp : obs) (g : list (option Q)) : Prop :=
+  (named_outside names d (r_x r) -> lp = ONegInf)
+  /\ (named_inside names d (r_x r) ->
+      match r_lprior r with
+      | NegInf => lp = ONegInf
+      | Fin p => exists q, lp = OFin q /\ close_prop q (o_logcdf (r_orc r) + p)
+      end
+      /\ Forall2 (fun m o => exists q, o = Some q /\ close_prop q m)
+           (map2 Qplus (map2 (spec_grad_coord t (r_orc r)) (o_gmean (r_orc r)) (o_gvar (r_orc r))) (r_gprior r)) g).
+
+Lemma row_prop_named names d b t r lp g :
+  lookup_all d names = Some b -> length (r_x r) = length names ->
+  row_prop b t r lp g -> named_row_prop names d t r lp g.
+Proof.
+  intros Hb Hx [H1 H2]. split.
+  - intro H. apply H1. now apply (some_outside_named names d b).
+  - intro H. apply H2. now apply (all_inside_named names d b).
+Qed.
+
+Lemma post_ok_sound p :
+  post_ok p = true ->
+  length (pc_impl_logpdf p) = length (pc_rows p) /\ length (pc_impl_grad p) = length (pc_rows p) /\
+  forall i r lp g, nth_error (pc_rows p) i = Some r -> nth_error (pc_impl_logpdf p) i = Some lp ->
+                   nth_error (pc_impl_grad p) i = Some g ->
+                   named_row_prop (pc_names p) (pc_dict p) (pc_t p) r lp g.
+Proof.
+  unfold post_ok. destruct (lookup_all (pc_dict p) (pc_names p)) as [b|] eqn:Eb; [|discriminate].
+  intro H. apply andb_true_iff in H. destruct H as [H H3]. apply andb_true_iff in H. destruct H as [H1 H2].
+  apply Nat.eqb_eq in H1. rewrite forallb_forall in H2.
+  destruct (rows_ok_sound _ _ _ _ _ H3) as (L1 & L2 & Hi). split; [exact L1|split; [exact L2|]].
+  intros i r lp g Hr Hl Hg. apply (row_prop_named _ _ b); auto.
+  - rewrite H1. apply Nat.eqb_eq. apply H2. eapply nth_error_In; eauto.
+  - eapply Hi; eauto.
+Qed.
+
+(** the model's own output (box = [box_of names dict]) passes the by-name spec, whatever the key order *)
+Lemma post_model_ok names d b t dim rows :
+  box_of names d = Some b -> length names <> 1%nat -> length names = dim ->
+  Forall (fun r => length (r_x r) = dim) rows ->
+  Forall (fun r => o_var (r_orc r) == o_sd (r_orc r) * o_sd (r_orc r) /\ ~ o_sd (r_orc r) == 0) rows ->
+  forall ndim ibs ill igl,
+  post_ok {| pc_dim := dim; pc_ndim := ndim; pc_names := names; pc_dict := d; pc_impl_bounds := ibs; pc_t := t;
+             pc_rows := rows; pc_impl_ll := ill; pc_impl_gl := igl;
+             pc_impl_logpdf := map (fun r => to_obs (logpdf_row b r)) rows;
+             pc_impl_grad := map (fun r => map Some (gradpdf_row b t r)) rows |} = true.
+Proof.
+  intros Hb Hn Hd Hx Ho ndim ibs ill igl. unfold post_ok. cbn [pc_dict pc_names pc_dim pc_rows pc_t pc_impl_logpdf pc_impl_grad].
+  rewrite (box_of_lookup_all _ _ _ Hb Hn). rewrite Hd, Nat.eqb_refl. simpl.
+  rewrite rows_model_ok by exact Ho. rewrite andb_true_r.
+  apply forallb_forall. intros r Hr. rewrite Forall_forall in Hx. apply Nat.eqb_eq. now apply Hx.
+Qed.
